@@ -264,12 +264,16 @@ class Check(core.PropertyCheck):
         rng = random.Random(ctx.seed + 47)
         docs = self._docs("quick", rng)
         if ctx.quick:
-            return [ctx.model_check(self.MODEL, self.model_constants("quick", docs, 2), dump=True)]
-        small = ctx.model_check(self.MODEL, self.model_constants("quick", docs, 2), dump=True)
+            return [ctx.model_check(self.MODEL, self.model_constants("quick", docs, 2), dump=True, timeout=1200)]
+        small = ctx.model_check(self.MODEL, self.model_constants("quick", docs, 2), dump=True, timeout=1200)
+        # wide: many documents, histories of two requests; deep: few documents, histories of three requests
         self._big_docs = self._docs("thorough", rng)
-        big = ctx.model_check(self.MODEL, self.model_constants("thorough", self._big_docs, 3), dump=False, tag="_big",
-                              timeout=1500)
-        return [small, big]
+        big = ctx.model_check(self.MODEL, self.model_constants("thorough", self._big_docs, 2), dump=False, tag="_wide",
+                              timeout=2400)
+        self._deep_docs = [d for d in docs if len(d) <= 2][:40]
+        deep = ctx.model_check(self.MODEL, self.model_constants("thorough", self._deep_docs, 3), dump=False, tag="_deep",
+                               timeout=2400)
+        return [small, big, deep]
 
     # ---- scenarios ------------------------------------------------------------------------------------
     @staticmethod
@@ -293,7 +297,8 @@ class Check(core.PropertyCheck):
         for b in behs:
             yield core.Scenario({"ops": self._ops(b, rng)}, predicted=core.predicted_events(b), source="model")
         if not ctx.quick:
-            sims, _r = ctx.simulate(self.MODEL, self.model_constants("thorough", self._big_docs, 4), num=3000, depth=5)
+            sims, _r = ctx.simulate(self.MODEL, self.model_constants("thorough", self._big_docs, 4), num=3000, depth=5,
+                                    timeout=1800)
             for b in sims:
                 yield core.Scenario({"ops": self._ops(b, rng)}, predicted=core.predicted_events(b), source="simulate")
         # beyond the model's bounds: all 17 fields, documents of up to 4 updates with the invalid part at every
